@@ -600,7 +600,11 @@ func (f *lambdaCallable) wrapVariadicArgs(argv []reflect.Value) []reflect.Value 
 	vars := reflect.MakeSlice(typeInterfaceSlice, n, n)
 
 	for i := 0; i < n; i++ {
-		vars.Index(i).Set(argv[paramCount-1+i])
+		// A missing argument (undefined) leaves a null
+		// placeholder; Set would panic on the zero Value.
+		if v := argv[paramCount-1+i]; v.IsValid() {
+			vars.Index(i).Set(v)
+		}
 	}
 
 	return append(argv[:paramCount-1], vars)
